@@ -29,6 +29,15 @@ struct SimGrid // a nested fixed array (same layout in both ABIs)
   short tail;
 };
 
+struct SimTable // long fixed arrays: indices of narrow integer types can be negative or wrap before they reach the extent
+{
+  int tbl[300];
+};
+struct SimBig
+{
+  char c[66000];
+};
+
 #if defined(__clang__)
 #  pragma clang diagnostic ignored "-Wgnu-zero-variadic-macro-arguments"
 #endif
@@ -42,8 +51,14 @@ struct SimGrid // a nested fixed array (same layout in both ABIs)
 #define sandbox_fields_reflection_simlib_class_SimGrid(f, g, ...)              \
   f(int[2][4], m, FIELD_NORMAL, ##__VA_ARGS__) g()                             \
   f(short, tail, FIELD_NORMAL, ##__VA_ARGS__) g()
+#define sandbox_fields_reflection_simlib_class_SimTable(f, g, ...)             \
+  f(int[300], tbl, FIELD_NORMAL, ##__VA_ARGS__) g()
+#define sandbox_fields_reflection_simlib_class_SimBig(f, g, ...)               \
+  f(char[66000], c, FIELD_NORMAL, ##__VA_ARGS__) g()
 #define sandbox_fields_reflection_simlib_allClasses(f, ...)                    \
   f(SimNode, simlib, ##__VA_ARGS__)                                            \
-  f(SimGrid, simlib, ##__VA_ARGS__)
+  f(SimGrid, simlib, ##__VA_ARGS__)                                            \
+  f(SimTable, simlib, ##__VA_ARGS__)                                           \
+  f(SimBig, simlib, ##__VA_ARGS__)
 rlbox_load_structs_from_library(simlib);
 
